@@ -81,6 +81,11 @@ func (s *SourceSplitter) Start(ckpt *snapshotpb.SourceCheckpoint) error {
 	for i, shard := range splitterState.GetAssignedShards() {
 		pendingShards[i] = newSourceSplitterShardFromProto(shard)
 	}
+	// Shards that were withheld at the checkpoint are tracked again. They are
+	// handed out once their parents are finished.
+	for _, shard := range splitterState.GetWithheldShards() {
+		pendingShards = append(pendingShards, newSourceSplitterShardFromProto(shard))
+	}
 	s.splitTracker.LoadSplits(pendingShards, splitterState.LastAssignedShardId)
 
 	// Load the split states to get the cursors
@@ -161,14 +166,19 @@ func (s *SourceSplitter) Close() error {
 
 // Checkpoint returns a snapshot of the splitter's state for checkpointing.
 func (s *SourceSplitter) Checkpoint() []byte {
-	splits, lastAssignedSplitID := s.splitTracker.AssignedSplitsWithLastID()
+	splits, withheld, lastAssignedSplitID := s.splitTracker.CheckpointState()
 	pbShards := make([]*kinesispb.SourceSplitterShard, len(splits))
 	for i, shard := range splits {
 		pbShards[i] = shard.toProto()
 	}
+	pbWithheld := make([]*kinesispb.SourceSplitterShard, len(withheld))
+	for i, shard := range withheld {
+		pbWithheld[i] = shard.toProto()
+	}
 
 	bs, err := proto.Marshal(&kinesispb.SplitterState{
 		AssignedShards:      pbShards,
+		WithheldShards:      pbWithheld,
 		LastAssignedShardId: lastAssignedSplitID,
 	})
 	if err != nil {
